@@ -202,6 +202,22 @@ def run(ctx: core.Ctx) -> int:
         ctx.rule(rid, t)
     mod = ctx.parse(F)
     T = Terms(mod)
+    # the quaternions are plain 4-component quaternions: an assumption handed to sympy (norm=1, real_field=...) changes what
+    # to_rotation_matrix / mul compute for the non-unit quaternions the property quantifies over
+    ctx.rule("TRUST-SIG", "Quaternion(a, b, c, d) is constructed without assumptions (no norm= / real_field= keywords)")
+    nq = 0
+    for c in ast.walk(mod):
+        if isinstance(c, ast.Call) and ast.unparse(c.func).split(".")[-1] == "Quaternion":
+            nq += 1
+            okq = not c.keywords and sum(1 if not isinstance(a, ast.Starred) else 3 for a in c.args) == 4
+            ctx.oblige("TRUST-SIG", f"{F}:<module>", f"`{ast.unparse(c)[:60]}`", okq, file=F, func="<module>", construct="Quaternion options:" + ",".join(k.arg or "**" for k in c.keywords),
+                       msg=f"`{ast.unparse(c)[:80]}` passes options to sympy's Quaternion: with norm=1 the rotation matrix drops its 1/|q|^2 factor, so the "
+                           f"identities only hold for unit quaternions", line=c.lineno)
+    for c in ast.walk(mod):
+        if isinstance(c, ast.Call) and isinstance(c.func, ast.Attribute) and c.func.attr in ("to_rotation_matrix", "mul", "add") and c.keywords:
+            ctx.oblige("TRUST-SIG", f"{F}:<module>", f"`{ast.unparse(c)[:60]}`", False, file=F, func="<module>", construct=f"{c.func.attr} options",
+                       msg=f"`{ast.unparse(c)[:80]}` passes options to sympy", line=c.lineno)
+    ctx.floor("TRUST-SIG", nq, 4, "Quaternion constructions")
     for need in ("state", "control", "calibration", "state_model", "orientation", "symbolic_model"):
         if need not in T.defs:
             raise core.AnalysisError(f"{F}: module-level `{need}` not found")
@@ -299,5 +315,10 @@ def run(ctx: core.Ctx) -> int:
                f"the orientation update is {short(no)}; required q + 0.5 * q.mul(Q(0, gyro)) * dt with q the state quaternion (operand order matters: "
                f"body rates multiply on the right)")
     ctx.floor("ENTRIES", len(entries), 16, "state-model entries examined")
+    # "the compiled Python model of it returns these values": compilation is C01; the clause that is specific to compiling one fixed model many
+    # times (with different calibrations) is that compile keeps nothing between calls
+    from . import c15 as _c15
+    ctx.rule("PY-PURE", "python.py / common.py keep no module-level mutable state written by functions (shared with C01)")
+    _c15.gen_pure(ctx, {"python": "py/formak/python.py", "common": "py/formak/common.py"}, rule="PY-PURE", floor=40)
     return core.finish(ctx, explanation="def-use inlining of the reference model's module-level assignments into terms; wiring compared modulo "
                                         "commutativity", **META)
